@@ -7,19 +7,18 @@ import (
 	"fmt"
 	"net/http"
 	"sort"
+	"strings"
 	"sync"
 	"time"
 
 	"github.com/google/uuid"
 
 	"github.com/quay/claircore"
-	"github.com/quay/claircore/alpine"
 	"github.com/quay/claircore/datastore"
-	"github.com/quay/claircore/enricher/epss"
 	"github.com/quay/claircore/libvuln/driver"
 	"github.com/quay/claircore/libvuln/updates"
-	"github.com/quay/claircore/rhel/vex"
 	"github.com/quay/claircore/verifharness/internal/hx"
+	"github.com/quay/claircore/verifharness/internal/registry"
 )
 
 // recStore records what the real update manager hands to the store.
@@ -29,26 +28,36 @@ type recStore struct {
 	calls             []string // "update" | "delta" | "enrich"
 	items             []string
 	statusErr         []bool
+	fp                driver.Fingerprint // of the last update operation
+	haveFP            bool
 }
 
-func (s *recStore) GetUpdateOperations(context.Context, driver.UpdateKind, ...string) (map[string][]driver.UpdateOperation, error) {
-	return map[string][]driver.UpdateOperation{}, nil
+func (s *recStore) GetUpdateOperations(_ context.Context, _ driver.UpdateKind, names ...string) (map[string][]driver.UpdateOperation, error) {
+	out := map[string][]driver.UpdateOperation{}
+	if fp, ok := s.lastFP(); ok {
+		for _, n := range names {
+			out[n] = []driver.UpdateOperation{{Updater: n, Fingerprint: fp}}
+		}
+	}
+	return out, nil
 }
 
-func (s *recStore) UpdateVulnerabilities(_ context.Context, _ string, _ driver.Fingerprint, vs []*claircore.Vulnerability) (uuid.UUID, error) {
+func (s *recStore) UpdateVulnerabilities(_ context.Context, _ string, fp driver.Fingerprint, vs []*claircore.Vulnerability) (uuid.UUID, error) {
 	s.mu.Lock()
 	defer s.mu.Unlock()
 	s.calls = append(s.calls, "update")
+	s.fp, s.haveFP = fp, true
 	for _, v := range vs {
 		s.items = append(s.items, canonVuln(v))
 	}
 	return uuid.New(), nil
 }
 
-func (s *recStore) DeltaUpdateVulnerabilities(_ context.Context, _ string, _ driver.Fingerprint, vs []*claircore.Vulnerability, del []string) (uuid.UUID, error) {
+func (s *recStore) DeltaUpdateVulnerabilities(_ context.Context, _ string, fp driver.Fingerprint, vs []*claircore.Vulnerability, del []string) (uuid.UUID, error) {
 	s.mu.Lock()
 	defer s.mu.Unlock()
 	s.calls = append(s.calls, "update")
+	s.fp, s.haveFP = fp, true
 	for _, v := range vs {
 		s.items = append(s.items, canonVuln(v))
 	}
@@ -58,10 +67,11 @@ func (s *recStore) DeltaUpdateVulnerabilities(_ context.Context, _ string, _ dri
 	return uuid.New(), nil
 }
 
-func (s *recStore) UpdateEnrichments(_ context.Context, _ string, _ driver.Fingerprint, es []driver.EnrichmentRecord) (uuid.UUID, error) {
+func (s *recStore) UpdateEnrichments(_ context.Context, _ string, fp driver.Fingerprint, es []driver.EnrichmentRecord) (uuid.UUID, error) {
 	s.mu.Lock()
 	defer s.mu.Unlock()
 	s.calls = append(s.calls, "update")
+	s.fp, s.haveFP = fp, true
 	for _, e := range es {
 		b, _ := json.Marshal(e)
 		s.items = append(s.items, string(b))
@@ -78,57 +88,21 @@ func (s *recStore) RecordUpdaterStatus(_ context.Context, _ string, _ time.Time,
 
 func (s *recStore) RecordUpdaterSetStatus(context.Context, string, time.Time) error { return nil }
 
-// managed is one updater driven by the real Manager.Run, with the same
-// updater also run directly (Fetch, then Parse) to learn the two outcomes the
-// model's `drive` is a function of.
-type managed struct {
-	name   string
-	gen    func(rnd *hx.Rand, n int) []byte
-	routes func(b body) []route
-	mk     func(c *http.Client) driver.Updater
-	cfg    driver.ConfigUnmarshaler
+// recStore also plays the store's memory of the last update operation: the
+// fingerprint of the last successful update is handed to the next Fetch.
+func (s *recStore) lastFP() (driver.Fingerprint, bool) {
+	s.mu.Lock()
+	defer s.mu.Unlock()
+	return s.fp, s.haveFP
 }
 
-func managedUpdaters() []managed {
-	hdr := map[string]string{"etag": `"e1"`, "last-modified": "Mon, 02 Jan 2006 15:04:05 GMT"}
-	return []managed{
-		{name: "alpine", gen: func(rnd *hx.Rand, n int) []byte { return genAlpine(rnd, n) },
-			routes: func(b body) []route { return []route{suffix("main.json", hdr, func() body { return b })} },
-			mk: func(c *http.Client) driver.Updater {
-				return alpine.UpdaterForC15(c, "http://feeds.test/v3.10/main.json", 3, 10, "main")
-			}},
-		{name: "epss", gen: func(rnd *hx.Rand, n int) []byte { return gz(genEPSSCSV(rnd, 2*n)) },
-			routes: func(b body) []route { return []route{suffix(".csv.gz", hdr, func() body { return b })} },
-			mk:     func(c *http.Client) driver.Updater { return &epss.Enricher{} },
-			cfg:    jsonConfig(map[string]string{"url": "http://epss.test/epss_scores-2024-10-25.csv.gz"})},
-		{name: "vex", gen: func(rnd *hx.Rand, n int) []byte { return genVEXArchive(rnd, n) },
-			routes: func(b body) []route {
-				return []route{
-					suffix("archive_latest.txt", nil, func() body { return body{data: []byte("csaf_vex_2024-05-01.tar.zst")} }),
-					suffix("changes.csv", hdr, func() body { return body{} }),
-					suffix("deletions.csv", hdr, func() body { return body{} }),
-					suffix(".tar.zst", hdr, func() body { return b })}
-			},
-			mk: func(c *http.Client) driver.Updater {
-				// through the factory, as in production (it sets the archive timeout)
-				f := &vex.Factory{}
-				if err := f.Configure(bg, jsonConfig(map[string]string{"url": "http://vex.test/data/"}), c); err != nil {
-					panic(err)
-				}
-				us, err := f.UpdaterSet(bg)
-				if err != nil || len(us.Updaters()) != 1 {
-					panic("vex factory")
-				}
-				return us.Updaters()[0]
-			},
-			cfg: jsonConfig(map[string]string{"url": "http://vex.test/data/"})},
+// directOutcome runs Fetch and Parse of a fresh updater directly, with the
+// fingerprint hint.
+func directOutcome(p *pipeline, c *http.Client, hint driver.Fingerprint) (fetch string, parse result) {
+	u, cfg, err := p.mk(c)
+	if err != nil {
+		return "failed", result{kind: "err"}
 	}
-}
-
-// directOutcome runs Fetch and Parse of a fresh updater directly.
-func directOutcome(m *managed, c *http.Client) (fetch string, parse result) {
-	u := m.mk(c)
-	cfg := m.cfg
 	if cfg == nil {
 		cfg = noConfig
 	}
@@ -140,7 +114,7 @@ func directOutcome(m *managed, c *http.Client) (fetch string, parse result) {
 	ctx, done := context.WithTimeout(bg, 15*time.Second)
 	defer done()
 	if eu, ok := u.(driver.EnrichmentUpdater); ok {
-		rc, _, err := eu.FetchEnrichment(ctx, "")
+		rc, _, err := eu.FetchEnrichment(ctx, hint)
 		if rc != nil {
 			defer rc.Close()
 		}
@@ -149,10 +123,12 @@ func directOutcome(m *managed, c *http.Client) (fetch string, parse result) {
 			return "unchanged", result{}
 		case err != nil:
 			return "failed", result{}
+		case rc == nil:
+			return "nothing", result{}
 		}
 		return "fetched", enrichResult(eu.ParseEnrichment(ctx, rc))
 	}
-	rc, _, err := u.Fetch(ctx, "")
+	rc, _, err := u.Fetch(ctx, hint)
 	if rc != nil {
 		defer rc.Close()
 	}
@@ -161,6 +137,8 @@ func directOutcome(m *managed, c *http.Client) (fetch string, parse result) {
 		return "unchanged", result{}
 	case err != nil:
 		return "failed", result{}
+	case rc == nil:
+		return "nothing", result{}
 	}
 	if du, ok := u.(driver.DeltaUpdater); ok {
 		vs, del, err := du.DeltaParse(ctx, rc)
@@ -176,95 +154,321 @@ func directOutcome(m *managed, c *http.Client) (fetch string, parse result) {
 	return "fetched", vulnResult(u.Parse(ctx, rc))
 }
 
-// runManager drives real Manager.Run scenarios: intact and damaged downloads,
-// and a "not modified" answer; the store must be called exactly when the
-// model's drive says so, and with exactly what Parse returned.
+// managerRun drives the real Manager.Run once for the pipeline's updater over
+// the given routes and store. Answer: "<store call> <run succeeded>".
+func managerRun(p *pipeline, routes []route, store *recStore) string {
+	c := client(routes...)
+	u, cfg, err := p.mk(c)
+	if err != nil {
+		return "manager-construct-error"
+	}
+	cfgs := updates.Configs{}
+	if cfg != nil {
+		cfgs[u.Name()] = cfg
+	}
+	store.mu.Lock()
+	store.calls, store.items, store.statusErr = nil, nil, nil
+	store.mu.Unlock()
+	return hx.Guard(func() string {
+		mgr, err := updates.NewManager(bg, store, updates.NewLocalLockSource(), c,
+			updates.WithFactories(map[string]driver.UpdaterSetFactory{}), updates.WithOutOfTree([]driver.Updater{u}),
+			updates.WithConfigs(cfgs), updates.WithBatchSize(1))
+		if err != nil {
+			return "manager-construct-error"
+		}
+		ctx, done := context.WithTimeout(bg, 30*time.Second)
+		defer done()
+		runErr := mgr.Run(ctx)
+		store.mu.Lock()
+		defer store.mu.Unlock()
+		call := "none"
+		if len(store.calls) == 1 {
+			call = "update"
+		} else if len(store.calls) > 1 {
+			call = fmt.Sprintf("update*%d", len(store.calls))
+		}
+		ok := runErr == nil
+		if len(store.statusErr) != 1 || store.statusErr[0] == ok {
+			return fmt.Sprintf("%s %v status-mismatch", call, ok)
+		}
+		return fmt.Sprintf("%s %v", call, ok)
+	})
+}
+
+func sameItems(a, b []string) bool {
+	if len(a) != len(b) {
+		return false
+	}
+	for i := range a {
+		if a[i] != b[i] {
+			return false
+		}
+	}
+	return true
+}
+
+// download is one way of serving a pipeline's files.
+type download struct {
+	desc   string
+	b      body
+	aux    map[string]body
+	status int
+}
+
+func withAux(aux map[string]body, name string, b body) map[string]body {
+	out := map[string]body{}
+	for k, v := range aux {
+		out[k] = v
+	}
+	out[name] = b
+	return out
+}
+
+// damagedDownloads makes the damaged ways of serving transit: every damage
+// class of the sweeps (cut with a clean close, cut with a transport error,
+// flipped bit, wrong Content-Length, aborted chunked transfer, reset) on the
+// primary download, and cuts of every secondary download.
+func damagedDownloads(p *pipeline, transit []byte, aux map[string]body, rnd *hx.Rand, n int) []download {
+	var ds []download
+	m := len(transit)
+	for i := 0; i < n; i++ {
+		k := rnd.Intn(m)
+		switch rnd.Intn(7) {
+		case 0:
+			ds = append(ds, download{fmt.Sprintf("cut@%d", k), body{data: transit[:k]}, aux, 200})
+		case 1:
+			ds = append(ds, download{fmt.Sprintf("cut-err@%d", k), body{data: transit[:k], term: errTransport}, aux, 200})
+		case 2:
+			x := byte(1) << uint(rnd.Intn(8))
+			ds = append(ds, download{fmt.Sprintf("flip@%d^%#02x", k, x), body{data: flipped(transit, k, x)}, aux, 200})
+		case 3:
+			sc := registry.New("", transit)
+			sc.Declared = k
+			ds = append(ds, download{fmt.Sprintf("content-length-short@%d", k), body{script: sc}, aux, 200})
+		case 4:
+			sc := registry.New("", transit[:k])
+			sc.Declared = m
+			sc.End = registry.EndClose
+			ds = append(ds, download{fmt.Sprintf("content-length-long@%d", k), body{script: sc}, aux, 200})
+		case 5:
+			sc := registry.New("", transit[:k])
+			sc.Framing = registry.FrameChunked
+			sc.End = registry.EndClose
+			sc.Chunks = []int{1 + rnd.Intn(64), 1 + rnd.Intn(512)}
+			ds = append(ds, download{fmt.Sprintf("chunked-abort@%d", k), body{script: sc}, aux, 200})
+		default:
+			sc := registry.New("", transit[:k])
+			sc.Framing = registry.FrameClose
+			sc.End = registry.End(rnd.Intn(3))
+			ds = append(ds, download{fmt.Sprintf("close-delimited@%d-%s", k, sc.End), body{script: sc}, aux, 200})
+		}
+	}
+	var names []string
+	for name := range aux {
+		if !strings.HasPrefix(name, "#") {
+			names = append(names, name)
+		}
+	}
+	sort.Strings(names)
+	for _, name := range names {
+		d := aux[name].data
+		if len(d) == 0 {
+			continue
+		}
+		k := rnd.Intn(len(d))
+		ds = append(ds, download{fmt.Sprintf("%s-cut@%d", name, k), body{data: transit}, withAux(aux, name, body{data: d[:k]}), 200})
+		ds = append(ds, download{fmt.Sprintf("%s-cut-err@%d", name, k), body{data: transit}, withAux(aux, name, body{data: d[:k], term: errTransport}), 200})
+	}
+	return ds
+}
+
+func (d *download) routes(p *pipeline) []route {
+	if d.status != 200 {
+		st := d.status
+		return []route{func(req *http.Request) (int, map[string]string, body, bool) { return st, nil, body{}, true }}
+	}
+	return p.routes(d.b, d.aux)
+}
+
+// runManager drives real Manager.Run scenarios for every updater: intact and
+// damaged downloads (every damage class of the sweeps), a server error and a
+// "not modified" answer; the store must be called exactly when the model's
+// drive says so, and with exactly what Parse returned. Then histories of
+// runs against a store that remembers the fingerprint of the last update.
 func runManager(r *hx.Run, rnd *hx.Rand, cfg hx.Config) {
-	ms := managedUpdaters()
-	for mi := range ms {
-		m := &ms[mi]
-		for round := 0; round < cfg.N(2, 6) && !r.Stop(); round++ {
-			transit := m.gen(rnd, 1+rnd.Intn(3))
-			type sc struct {
-				desc string
-				b    body
-				st   int
+	ps := pipelines(cfg.Corpus)
+	for pi := range ps {
+		p := &ps[pi]
+		pick := func() []byte {
+			if p.gen != nil {
+				return p.gen(rnd, 1+rnd.Intn(3))
 			}
-			scs := []sc{{"intact", body{data: transit}, 200}}
-			for i := 0; i < cfg.N(6, 30); i++ {
-				k := rnd.Intn(len(transit))
-				switch rnd.Intn(3) {
-				case 0:
-					scs = append(scs, sc{fmt.Sprintf("cut@%d", k), body{data: transit[:k]}, 200})
-				case 1:
-					scs = append(scs, sc{fmt.Sprintf("cut-err@%d", k), body{data: transit[:k], term: errTransport}, 200})
-				default:
-					x := byte(1) << uint(rnd.Intn(8))
-					scs = append(scs, sc{fmt.Sprintf("flip@%d^%#02x", k, x), body{data: flipped(transit, k, x)}, 200})
-				}
+			if len(p.fixed) == 0 {
+				return nil
 			}
-			scs = append(scs, sc{"server-error", body{}, 500}, sc{"not-modified", body{}, 304})
-			for _, s := range scs {
+			return p.fixed[rnd.Intn(len(p.fixed))]
+		}
+		for round := 0; round < cfg.N(1, 4) && !r.Stop(); round++ {
+			transit := pick()
+			if transit == nil {
+				r.Count("manager-skipped-no-corpus:" + p.name)
+				break
+			}
+			aux := p.intactAux(transit)
+			scs := []download{{"intact", body{data: transit}, aux, 200}}
+			scs = append(scs, damagedDownloads(p, transit, aux, rnd, cfg.N(7, 28))...)
+			scs = append(scs, download{"server-error", body{}, aux, 500}, download{"not-modified", body{}, aux, 304})
+			for si := range scs {
+				s := &scs[si]
 				if r.Stop() {
 					return
 				}
-				routes := m.routes(s.b)
-				if s.st != 200 {
-					routes = []route{func(req *http.Request) (int, map[string]string, body, bool) { return s.st, nil, body{}, true }}
+				fetch, parse := directOutcome(p, client(s.routes(p)...), "")
+				if fetch == "nothing" {
+					r.Fail("", fmt.Sprintf("Fetch returned neither data nor an error: updater=%s download=%s", p.name, s.desc))
+					continue
 				}
-				fetch, parse := directOutcome(m, client(routes...))
 				store := &recStore{}
-				c := client(routes...)
-				cfgs := updates.Configs{}
-				u := m.mk(c)
-				if m.cfg != nil {
-					cfgs[u.Name()] = m.cfg
-				}
-				out := hx.Guard(func() string {
-					mgr, err := updates.NewManager(bg, store, updates.NewLocalLockSource(), c,
-						updates.WithFactories(map[string]driver.UpdaterSetFactory{}), updates.WithOutOfTree([]driver.Updater{u}),
-						updates.WithConfigs(cfgs), updates.WithBatchSize(1))
-					if err != nil {
-						return "manager-construct-error"
-					}
-					ctx, done := context.WithTimeout(bg, 30*time.Second)
-					defer done()
-					runErr := mgr.Run(ctx)
-					store.mu.Lock()
-					defer store.mu.Unlock()
-					call := "none"
-					if len(store.calls) == 1 {
-						call = "update"
-					} else if len(store.calls) > 1 {
-						call = fmt.Sprintf("update*%d", len(store.calls))
-					}
-					ok := runErr == nil
-					if len(store.statusErr) != 1 || store.statusErr[0] == ok {
-						return fmt.Sprintf("%s %v status-mismatch", call, ok)
-					}
-					return fmt.Sprintf("%s %v", call, ok)
-				})
+				out := managerRun(p, s.routes(p), store)
 				parseTok := "err"
 				if parse.ok() {
 					parseTok = "ok"
 				}
 				r.Op(fmt.Sprintf("drive %s %s", fetch, parseTok), out, true)
-				r.Count("manager:" + m.name + ":" + fetch + ":" + parseTok + ":" + out)
+				r.Count("manager:" + p.name + ":" + fetch + ":" + parseTok + ":" + out)
 				// the stored snapshot is what Parse returned
 				if out == "update true" {
 					sort.Strings(store.items)
-					same := len(store.items) == len(parse.items)
-					for i := 0; same && i < len(parse.items); i++ {
-						same = store.items[i] == parse.items[i]
-					}
-					if !same {
-						r.Fail("", fmt.Sprintf("manager stored something else than Parse returned: updater=%s download=%s transit=%s", m.name, s.desc, hx.Hex(transit)))
+					if !sameItems(store.items, parse.items) {
+						r.Fail("", fmt.Sprintf("manager stored something else than Parse returned: updater=%s download=%s transit=%s", p.name, s.desc, hx.Hex(transit)))
 					}
 				}
 				if (fetch != "fetched" || !parse.ok()) && out != "none true" && out != "none false" {
-					r.Fail("", fmt.Sprintf("manager touched the store although fetch=%s parse=%s: updater=%s download=%s observed=%q transit=%s", fetch, parseTok, m.name, s.desc, out, hx.Hex(transit)))
+					r.Fail("", fmt.Sprintf("manager touched the store although fetch=%s parse=%s: updater=%s download=%s observed=%q transit=%s", fetch, parseTok, p.name, s.desc, out, hx.Hex(transit)))
 				}
 			}
+		}
+		runHistory(r, p, pick, rnd.Fork(), cfg)
+	}
+}
+
+// runHistory: successive manager runs of one updater against one store. The
+// server serves a sequence of versions (each with its own validators and
+// checksums); some downloads are damaged. The model (histStep) predicts every
+// run from the version served and from what a fetch that reads the body would
+// make of the download. Direct statement: what the store holds after every
+// run is the intact snapshot of some version served (or a listed still-valid
+// damage), and a failed run changes nothing.
+func runHistory(r *hx.Run, p *pipeline, pick func() []byte, rnd *hx.Rand, cfg hx.Config) {
+	if p.name == "vex" {
+		// a delta updater: a later run fetches changes only and always ends in
+		// an (often empty) delta update; the snapshot model does not apply
+		runVexHistory(r, p, pick, rnd, cfg)
+		return
+	}
+	for h := 0; h < cfg.N(1, 4) && !r.Stop(); h++ {
+		versions := map[int][]byte{}
+		intact := map[int]result{}
+		store := &recStore{}
+		r.Op("hist", "ok", false)
+		ver := 1
+		var held []string // what the store holds
+		heldVer := 0
+		for step := 0; step < cfg.N(6, 10) && !r.Stop(); step++ {
+			switch rnd.Intn(4) {
+			case 0:
+				ver++
+			case 1:
+				if ver > 1 && rnd.Chance(1, 2) {
+					ver--
+				}
+			}
+			if versions[ver] == nil {
+				versions[ver] = pick()
+				if versions[ver] == nil {
+					return
+				}
+			}
+			transit := versions[ver]
+			aux := withAux(p.intactAux(transit), "#version", body{data: []byte(fmt.Sprint(ver))})
+			if _, ok := intact[ver]; !ok {
+				intact[ver] = guard(func() result { return p.runSite(body{data: transit}, aux) })
+			}
+			d := download{"intact", body{data: transit}, aux, 200}
+			if rnd.Chance(1, 2) {
+				d = damagedDownloads(p, transit, aux, rnd, 1)[0]
+			}
+			// what a fetch that reads the body makes of it
+			fetch, parse := directOutcome(p, client(d.routes(p)...), "")
+			outcome := "parsed"
+			switch {
+			case fetch == "failed":
+				outcome = "fetch-failed"
+			case !parse.ok():
+				outcome = "parse-failed"
+			}
+			// the contract of Fetch with the stored fingerprint
+			if fp, ok := store.lastFP(); ok {
+				if f2, _ := directOutcome(p, client(d.routes(p)...), fp); f2 == "nothing" {
+					r.Fail("", fmt.Sprintf("Fetch returned neither data nor an error (nor Unchanged) for a known fingerprint: updater=%s version=%d download=%s", p.name, ver, d.desc))
+					return
+				}
+			}
+			out := managerRun(p, d.routes(p), store)
+			r.Op(fmt.Sprintf("run %d %s", ver, outcome), out, true)
+			r.Count("history:" + p.name + ":" + outcome + ":" + out)
+			switch {
+			case strings.HasPrefix(out, "update true"):
+				store.mu.Lock()
+				held = append([]string(nil), store.items...)
+				store.mu.Unlock()
+				sort.Strings(held)
+				heldVer = ver
+				if !sameItems(held, intact[ver].items) {
+					cl := classify(intact[ver], result{kind: "ok", items: held})
+					f := &feed{t: &target{name: "pipe-" + p.name, valid: p.valid, class: p.class}, spool: transit, intact: intact[ver]}
+					dmg := d.b.data
+					if d.b.script != nil {
+						dmg, _ = d.b.script.Delivered()
+					}
+					judge(r, f, "history", fmt.Sprintf("history step=%d version=%d download=%s", step, ver, d.desc), dmg, d.b.data != nil || d.b.script != nil, result{kind: "ok", items: held})
+					r.Count("history-stored-damaged:" + p.name + ":" + cl)
+				}
+			case strings.HasPrefix(out, "none"):
+				// nothing may have changed
+			default:
+				r.Fail("", fmt.Sprintf("manager run: updater=%s version=%d download=%s observed=%q", p.name, ver, d.desc, out))
+			}
+			_ = heldVer
+		}
+	}
+}
+
+// runVexHistory: a full run, then a delta run over an unchanged server: the
+// second run must not delete or change anything.
+func runVexHistory(r *hx.Run, p *pipeline, pick func() []byte, rnd *hx.Rand, cfg hx.Config) {
+	transit := pick()
+	aux := p.intactAux(transit)
+	store := &recStore{}
+	out1 := managerRun(p, p.routes(body{data: transit}, aux), store)
+	r.Case("vex history run 1", true)
+	if out1 != "update true" {
+		r.Fail("", fmt.Sprintf("vex: first run over an intact site: %q", out1))
+		return
+	}
+	// a damaged second run, then an intact one: the delta must be empty both times
+	for i, d := range []download{
+		{"changes.csv-cut-err", body{data: transit}, withAux(aux, "changes.csv", body{data: aux["changes.csv"].data[:len(aux["changes.csv"].data)/2], term: errTransport}), 200},
+		{"intact", body{data: transit}, aux, 200},
+	} {
+		out := managerRun(p, d.routes(p), store)
+		r.Case(fmt.Sprintf("vex history run %d", i+2), true)
+		r.Count("history:vex:" + d.desc + ":" + out)
+		store.mu.Lock()
+		n := len(store.items)
+		store.mu.Unlock()
+		if n != 0 || (out != "update true" && out != "none true" && out != "none false") {
+			r.Fail("", fmt.Sprintf("vex: run %d over an unchanged site (%s) changed the store: %q with %d items", i+2, d.desc, out, n))
 		}
 	}
 }
